@@ -262,7 +262,10 @@ def run_harness(h, base_t, dst, scratch, envadd, playback=False):
     common += h.get("kani_args", [])
     try:
         unwind = h.get("unwind", 8)
-        uws = h.get("unwindset") or {}
+        uws = dict(h.get("unwindset") or {})
+        if uws:
+            for k, v in specs.GLOBAL_UNWINDSET.items():
+                uws.setdefault(k, v)
         cmd = list(common)
         if uws:
             rc, out, to = run_limited(common + ["--only-codegen"], dst, env,
@@ -277,7 +280,11 @@ def run_harness(h, base_t, dst, scratch, envadd, playback=False):
             # a pattern that matches no loop leaves that loop (if any) at the default bound; with unwinding
             # assertions on, a too-small bound is then a reported failure, never a silent pass
             res["unwindset"]["unmatched_patterns"] = unmatched
-            cmd += ["-Z", "unstable-options", "--cbmc-args", "--unwind", str(unwind),
+            # CBMC library loops (added after codegen, so --show-loops cannot see them): slice == is memcmp
+            sel.setdefault("memcmp.0", max(unwind, specs.MEMCMP_UNWIND))
+            if "unstable-options" not in cmd:
+                cmd += ["-Z", "unstable-options"]
+            cmd += ["--cbmc-args", "--unwind", str(unwind),
                     "--unwindset", ",".join("%s:%d" % kv for kv in sorted(sel.items()))]
         else:
             cmd += ["--default-unwind", str(unwind)]
